@@ -236,11 +236,14 @@ class GridSearchOracle(oracle_module.Oracle):
             -1 if a < b, 0 if a == b, 1 if a > b.
         """
         hps = self.get_space()
+        hps.values = dict(a)
         for hp in hps.space:
             # The hp is not active in neither a or b.
             # Whether it is active should be the same in a and b,
             # or the loop have stopped at the parent values which are different.
-            if hp.name not in a:
+            # (The name may be declared again under another condition, with
+            # other values: only the active entry is compared.)
+            if hp.name not in a or not hps.is_active(hp):
                 continue
 
             # `b` may belong to a trial started before this hp was discovered:
@@ -285,14 +288,15 @@ class GridSearchOracle(oracle_module.Oracle):
             active ones.
         """
         hps = self.get_space()
-        all_values = {}
-        for hp in hps.space:
+
+        def ordered_values(hp):
+            # The values of one entry (a name may be declared again under
+            # another condition, with other values), default value first.
             value_list = list(hp.values)
             if hp.default in value_list:
                 value_list.remove(hp.default)
-            # Put the default value first.
-            all_values[hp.name] = [hp.default] + value_list
-        default_values = {hp.name: hp.default for hp in hps.space}
+            return [hp.default] + value_list
+
         hps.values = copy.deepcopy(values)
         # `values` may come from a trial that ended before some hps were
         # discovered: they take their default value.
@@ -307,17 +311,19 @@ class GridSearchOracle(oracle_module.Oracle):
             # Bump up the hp value if possible and active.
             if hps.is_active(hp):
                 value = hps.values[name]
-                if value != all_values[name][-1]:
-                    index = all_values[name].index(value) + 1
-                    hps.values[name] = all_values[name][index]
+                value_list = ordered_values(hp)
+                if value != value_list[-1]:
+                    index = value_list.index(value) + 1
+                    hps.values[name] = value_list[index]
                     bumped_value = True
                     break
             elif hps.is_active(name):
                 # Another entry of the same name (declared under another
                 # condition) is the active one: its value is not ours to reset.
                 continue
-            # Otherwise, reset to its first value.
-            hps.values[name] = default_values[name]
+            # Otherwise, reset it: `ensure_active_values` below gives the
+            # entry of that name which is then active its first value.
+            hps.values.pop(name, None)
 
         hps.ensure_active_values()
         return hps.values if bumped_value else None
